@@ -2,6 +2,7 @@
     side-effecting components — as an instance of the adjudication loop and of the run loop:
       push("s<i>", line_number())   stop()   skip()   advance(n)
       <cond> -> <act>   and   <cond>.nocontrib -> <act>   and bare <cond>
+      stop(<cond>)   skip(<cond>)   fail_and_stop(<cond>)
       cond ::= eq(line_number(),k) | gt(line_number(),k) | last() | yes() | no()
     AND mode.  Transcribes Stopper/Skipper/Advance/Last/Push._decide_match, Equality._do_when,
     Function.matches (frozen check), Matcher.matches/_do_lasts.  No proofs here. *)
@@ -12,7 +13,8 @@ Open Scope Z_scope.
 
 Inductive cond := EqLine (k : Z) | GtLine (k : Z) | IsLast | Yes | No | IsValid | IsFailed.
 Inductive act := AStop | ASkip | AAdv (n : Z) | APush (i : Z) | AFail | AFailStop.
-Inductive comp := CAct (a : act) | CWhen (c : cond) (nocontrib : bool) (a : act) | CCond (c : cond).
+Inductive comp := CAct (a : act) | CWhen (c : cond) (nocontrib : bool) (a : act) | CCond (c : cond)
+  | CArg (c : cond) (a : act).     (* the one-argument forms stop(cond), skip(cond), fail_and_stop(cond): act when cond holds; the vote is neutral *)
 
 (** what the match part owns: the pushes made so far (stack id, line number) and Matcher.skip *)
 (** ... the verdict CsvPath.is_valid and the lines on which a fail()/fail_and_stop() executed *)
@@ -79,6 +81,9 @@ Section Ctl.
           then (with_frozen (do_act a (with_frozen s false)) true, true)   (* override_frozen *)
           else (do_act a s, true)
         else (s, nc)
+    | CArg cd a =>
+        if frozen mx s then (s, true)
+        else if eval_cond cd s then (do_act a s, true) else (s, true)
     end.
 
   (** Matcher._do_lasts on the blank final record: only 'last() -> act' components run *)
